@@ -171,7 +171,7 @@ func isReaderType(t types.Type) bool {
 }
 
 func runC08(p *Program, r *Report) {
-	r.Explanation = "Structural necessary-and-nearly-sufficient condition for schedule independence, decided on every call site of the metadata packages: (RD1) no fixed-size field is obtained with a single Read on an io.Reader/binary.Reader/bufio.Reader, which may legally return a short count; all stream bytes come from io.ReadFull, io.CopyN/Copy, ReadByte-based helpers, whose result is a function of the byte sequence only; (RD2) no read primitive's error is dropped; (RD3) the binary.ReadU* helpers are built from ReadByte only; (RD4) parsers never type-assert the stream to reach buffering state. What is NOT decided: the behaviour of bufio, io.ReadFull and compress/zlib themselves (trusted library contracts)."
+	r.Explanation = "Structural necessary-and-nearly-sufficient condition for schedule independence, decided on every call site of the metadata packages: (RD1) no fixed-size field is obtained with a single Read on an io.Reader/binary.Reader/bufio.Reader, which may legally return a short count; all stream bytes come from io.ReadFull, io.CopyN/Copy, ReadByte-based helpers, whose result is a function of the byte sequence only; (RD2) no read primitive's error is dropped; (RD3) the binary.ReadU* helpers are built from ReadByte only; (RD4) parsers never type-assert the stream to reach buffering state; (RD5) decoders that buffer ahead on their own (compress/zlib, a second bufio) are applied to in-memory data only, never to the live stream. What is NOT decided: the behaviour of bufio, io.ReadFull and compress/zlib themselves (trusted library contracts)."
 	r.RuleText = "one instance per call site (resolved callee, receiver static type); non-trivial = every classified Read call and every read primitive whose error flow was traced"
 	r.Trusted = []string{"go/packages+go/types+go/ssa (x/tools v0.29.0)", "io.ReadFull / io.CopyN / bufio.Reader.ReadByte return the next bytes of the stream regardless of how the source segments them", "compress/zlib reads through io.Reader contract only"}
 
@@ -233,6 +233,46 @@ func runC08(p *Program, r *Report) {
 		}
 	}
 	r.Hold("C08.RD4", "scan", "-", fmt.Sprintf("%d functions of meta/... scanned for type assertions on stream readers", nFn))
+
+	// RD5: decoders that buffer ahead on their own (compress/*, a second bufio) are
+	// applied to in-memory data only. On the live stream their read-ahead — and so the
+	// position the parser resumes at — depends on how the source segments its data.
+	nDec := 0
+	for _, f := range p.SrcFuncs() {
+		if !inMeta(f) {
+			continue
+		}
+		isLoad := f.Name() == "Load" && f.Parent() == nil
+		for _, b := range f.Blocks {
+			for _, in := range b.Instrs {
+				c, ok := in.(*ssa.Call)
+				if !ok {
+					continue
+				}
+				cf := staticCallee(c)
+				if cf == nil || cf.Pkg == nil || len(c.Call.Args) == 0 {
+					continue
+				}
+				pp := cf.Pkg.Pkg.Path()
+				readsAhead := strings.HasPrefix(pp, "compress/") && strings.HasPrefix(cf.Name(), "NewReader")
+				if pp == "bufio" && strings.HasPrefix(cf.Name(), "NewReader") && !isLoad {
+					readsAhead = true // the one buffering layer belongs to the loader plumbing (C18.E3); none inside the parsers
+					if tc, ok := stripIface(c.Call.Args[0]).(*ssa.Call); ok && fnIs(staticCallee(tc), "io", "TeeReader") {
+						readsAhead = false // bufio directly over the recording tee: that is the loader's layer
+					}
+				}
+				if !readsAhead {
+					continue
+				}
+				nDec++
+				src := stripIface(c.Call.Args[0])
+				inMem := inMemoryReader(p, src, 0)
+				key := fmt.Sprintf("%s %s.%s#%d", shortFn(f), pp, cf.Name(), nDec)
+				r.Check(inMem, "C08.RD5", key, p.InstrPos(c), "the buffering decoder reads from in-memory data (bytes.Buffer / bytes.Reader) that was first read with a full-read primitive", "a decoder that buffers ahead on its own ("+pp+"."+cf.Name()+") is applied to "+trunc(src.String(), 80)+", not to in-memory data: how much of the stream it swallows depends on the read schedule, so the bytes the parser sees next do too")
+			}
+		}
+	}
+	r.Hold("C08.RD5", "scan", "-", fmt.Sprintf("%d buffering-decoder constructions in meta/...", nDec))
 
 	// RD3
 	bin := p.SSAPkg[ModPath+"/meta/binary"]
@@ -345,4 +385,65 @@ func rd1Scan(p *Program, r *Report, rule string) {
 	if bad == 0 {
 		r.Hold(rule, "no bare Read in meta/...", "-", fmt.Sprintf("%d Read call sites classified; all stream payloads are read with io.ReadFull / io.CopyN / ReadByte helpers", n))
 	}
+}
+
+// inMemoryReader: the value is a reader over data already held in memory
+// (bytes.Buffer, bytes.Reader, strings.Reader), possibly handed down through
+// parameters of functions all of whose callers pass such a value.
+func inMemoryReader(p *Program, v ssa.Value, depth int) bool {
+	if depth > 4 {
+		return false
+	}
+	v = stripIface(v)
+	isMemType := func(t types.Type) bool {
+		return namedIs(t, "bytes", "Buffer") || namedIs(t, "bytes", "Reader") || namedIs(t, "strings", "Reader")
+	}
+	if isMemType(v.Type()) {
+		return true
+	}
+	switch x := v.(type) {
+	case *ssa.Call:
+		if g := staticCallee(x); g != nil && (fnIs(g, "bytes", "NewReader") || fnIs(g, "bytes", "NewBuffer") || fnIs(g, "bytes", "NewBufferString") || fnIs(g, "strings", "NewReader")) {
+			return true
+		}
+	case *ssa.Parameter:
+		fn := x.Parent()
+		idx := -1
+		for i, prm := range fn.Params {
+			if prm == x {
+				idx = i
+			}
+		}
+		if idx < 0 {
+			return false
+		}
+		n := 0
+		for _, g := range p.SrcFuncs() {
+			for _, b := range g.Blocks {
+				for _, in := range b.Instrs {
+					c, ok := in.(ssa.CallInstruction)
+					if !ok || staticCallee(c) != fn {
+						continue
+					}
+					args := c.Common().Args
+					if idx >= len(args) {
+						return false
+					}
+					n++
+					if !inMemoryReader(p, args[idx], depth+1) {
+						return false
+					}
+				}
+			}
+		}
+		return n > 0
+	case *ssa.Phi:
+		for _, e := range x.Edges {
+			if !inMemoryReader(p, e, depth+1) {
+				return false
+			}
+		}
+		return len(x.Edges) > 0
+	}
+	return false
 }
